@@ -63,7 +63,7 @@ pub(crate) fn c08_case(rep: &mut Report, seed: u64, idx: u64, tier: &str) {
         7..=9 => rng.range(5000, 200_000),
         _ => {
             if idx % 16 == 5 {
-                tier_pick(tier, 1_200_000, 8_400_000)
+                if tier == "thorough" && idx % 512 == 5 { 17_000_000 } else { tier_pick(tier, 1_200_000, 8_400_000) }
             } else {
                 rng.range(60_000, 300_000)
             }
